@@ -33,7 +33,9 @@ type DrvCase struct {
 	ReadSize    int        `json:"read_size"`
 	ReadDelayNS int64      `json:"read_delay_ns"`
 	HelloLF     bool       `json:"hello_lf"`
-	DelaysNS    []int64    `json:"delays_ns,omitempty"`
+	// ReplyAfterReturn: see sim.NCServer
+	ReplyAfterReturn bool    `json:"reply_after_return,omitempty"`
+	DelaysNS         []int64 `json:"delays_ns,omitempty"`
 	// HelloEchoMayShareRead: obsolete, see sim.NCServer (old witness files carry it).
 	HelloEchoMayShareRead bool `json:"hello_echo_may_share_read,omitempty"`
 }
@@ -75,6 +77,8 @@ func genDrv(t *rapid.T) DrvCase {
 		ReadSize:    rapid.SampledFrom([]int{1, 3, 64, 8192, 65535}).Draw(t, "readSize"),
 		ReadDelayNS: int64(rapid.SampledFrom([]time.Duration{10 * time.Microsecond, 250 * time.Microsecond}).Draw(t, "readDelay")),
 		HelloLF:     rapid.Bool().Draw(t, "helloLF"),
+
+		ReplyAfterReturn: rapid.Bool().Draw(t, "replyAfterReturn"),
 	}
 
 	if rapid.Bool().Draw(t, "delays") {
@@ -157,6 +161,7 @@ func runDrv(c DrvCase) ev.Verdict {
 		Version: c.Version,
 		Echo:    c.Echo,
 
+		ReplyAfterReturn:      c.ReplyAfterReturn,
 		HelloEchoMayShareRead: c.HelloEchoMayShareRead,
 	}
 	srv.OnRequest = func(r sim.NCRequest) []sim.NCAction {
